@@ -37,6 +37,17 @@ check("C16",
       "Lean 4 proof (oracle equivalence by induction over components) + exhaustive differential correspondence + API exploration",
       "DESIGN.md §4 C16")
 
+check("C19",
+      "Theorems (Lean): every volume size the help describes ({Size}[b|k|m|g], either case, or no unit) is accepted and "
+      "converted to Size x unit (all digit strings); counter-example for the pinned 'unit is None' test (F2, repaired); "
+      "exit-status table of t/x (0 iff ok). The size parser is tied to cli.py by a correspondence stream; the rest of the "
+      "property is decided on the real command line: 'python -m py7zr' subprocesses for c/x/l/a/t over generated trees, "
+      "every unit spelling, and intact/damaged/encrypted/unsupported/multi-folder archives with the expected status taken "
+      "from ground truth (pristine members vs sequential in-memory extraction). Partial: argparse and interpreter exit "
+      "codes are runtime.",
+      "Lean 4 proof of the size-parser/exit-table logic + differential correspondence + subprocess exploration against ground truth",
+      "DESIGN.md §4 C19")
+
 ALL = ["C%02d" % i for i in range(1, 21)]
 REASON_PENDING = "not yet claimed in this revision: model/theorems/correspondence for it are still being built (see DESIGN.md §8.3 staging)"
 
